@@ -164,6 +164,7 @@ func (c *MapCodec) Read(data []byte, ptr unsafe.Pointer, wt plenccore.WireType) 
 	// re-use the space on each iteration as the data is copied into the map
 	// We also save some memory & time if we cache them in some pools
 	k := c.kPool.Get().(unsafe.Pointer)
+	verifYield(VerifYieldMapScratch)
 	defer c.kPool.Put(k)
 	offset := int(n)
 	for count > 0 {
@@ -370,6 +371,7 @@ func (c ProtoMapCodec) Read(data []byte, ptr unsafe.Pointer, wt plenccore.WireTy
 	// re-use the space on each iteration as the data is copied into the map
 	// We also save some memory & time if we cache them in some pools
 	k := c.kPool.Get().(unsafe.Pointer)
+	verifYield(VerifYieldMapScratch)
 	defer c.kPool.Put(k)
 	return c.readMapEntry(mp, k, data)
 }
